@@ -84,6 +84,17 @@ def cases(tier):
             c['init_lw'] = {'outcomes': ['x', 'y'], 'cues': ['a'], 'vals': ['1/2', '-3/4']}
             c['init_cells'] = [['x', 'a', '1/2'], ['y', 'a', '-3/4']]
         out.append((c, LEARNERS))
+    # parameters on the boundary of their range: exactly zero beta2 / beta1 / lambda / alpha (a kernel that
+    # treats "nothing to unlearn" or "nothing to learn" as a shortcut; seeded change C13_e).  Own PRNG
+    # stream, so the cases above stay what they were.
+    rz = rng('C01-zero-parameters')
+    for i in range(8 if tier == 'quick' else 80):
+        es = gen.events(rz, rz.choice([3, 4, 6, 9]), dup=0.0, late=(i % 2 == 0))
+        zero = ['beta2', 'beta1', 'lambda', 'alpha'][i % 4] if i % 8 < 6 else 'beta2'
+        c = dict(gen.params(rz), events=es, policy='error', stream='zero_parameter:' + zero,
+                 n_jobs=rz.choice([1, 2, 3]), per_job=rz.choice([1, 2, 10]), per_file=rz.choice([2, 3, 10000000]))
+        c[zero] = '0'
+        out.append((c, LEARNERS))
     # long sequences outside the exact domain (tolerance comparison) - thorough only
     if tier == 'thorough':
         for i in range(40):
